@@ -19,7 +19,7 @@ Local Open Scope N_scope.
 Definition PACK_MAGIC : N := 1885430635.   (* 0x7061636B *)
 Definition PACK_MAX_FILES : N := 65535.
 
-Definition pentry := (bytes * bytes)%type.    (* (encoded name, contents) *)
+Notation pentry := (bytes * bytes)%type (only parsing).    (* (encoded name, contents) *)
 
 (* the NUL-free string [nm] followed by a NUL stands at address [a] of [f] *)
 Definition name_at (f : bytes) (a : N) (nm : bytes) : Prop :=
@@ -72,3 +72,16 @@ Definition conforms_packb (f : bytes) (files : list pentry) : bool :=
   let n := N.of_nat (length files) in
   opt_N_eqb (u32_at BE f 0) PACK_MAGIC && (n <=? PACK_MAX_FILES) && opt_N_eqb (u16_at BE f 4) n
   && entries_atb f 0 files && nodupb (map fst files).
+
+(* ---------------------------------------------------------------- domain of the builder theorems *)
+(* distinct, NUL-free names; names and contents are bytes *)
+Definition wf_files (files : list pentry) : Prop :=
+  NoDup (map fst files) /\ Forall (fun e => ~ In 0 (fst e) /\ wfb (fst e) /\ wfb (snd e)) files.
+
+(* a simple upper bound of the size of the built image: header, table, names with terminators,
+   every section and file padded by fewer than 32 bytes *)
+Definition pack_bound (files : list pentry) : N :=
+  8 + 16 * N.of_nat (length files) + 32
+  + fold_right (fun e acc => lenN (fst e) + 1 + lenN (snd e) + 32 + acc) 0 files.
+(* "sizes fit u32": every address and size of the image can be recorded in 32 bits *)
+Definition fits32 (files : list pentry) : Prop := pack_bound files < 2 ^ 32.
